@@ -4,6 +4,11 @@ Written from the documentation table only; a backtracking matcher over a small A
 translation. Only the documented constructs are supported; anything else raises Unsupported."""
 
 
+import sys
+
+sys.setrecursionlimit(max(sys.getrecursionlimit(), 12000))
+
+
 class Unsupported(Exception):
     pass
 
